@@ -372,9 +372,9 @@ func ruleCountHelpers(c *Ctx) {
 		var lens []string
 		ast.Inspect(fi.Decl.Body, func(n ast.Node) bool {
 			if call, ok := n.(*ast.CallExpr); ok {
-				if id, ok := call.Fun.(*ast.Ident); ok && id.Name == "len" {
-					if se, ok := ast.Unparen(call.Args[0]).(*ast.SelectorExpr); ok {
-						lens = append(lens, se.Sel.Name)
+				if id, ok := call.Fun.(*ast.Ident); ok && id.Name == "len" && len(call.Args) == 1 {
+					if f := measuredField(info, fi.Decl, call.Args[0], 0); f != "" {
+						lens = append(lens, f)
 					}
 				}
 			}
@@ -393,7 +393,7 @@ func ruleCountHelpers(c *Ctx) {
 			zero := p.Entails(&FLit{aZero, 3, 2})
 			compared := false
 			for _, cs := range p.Conds {
-				if cs.Expr != nil && strings.Contains(types.ExprString(cs.Expr), "!= "+cnt) {
+				if cs.Expr != nil && comparesWithParam(info, fi.Decl, cs.Expr, paramObjs(info, fi.Decl)[2]) {
 					compared = true
 					if cs.Taken && p.End != "panic" {
 						bad = "a length mismatch does not end in Fatal: " + p.describe(c.P)
@@ -403,7 +403,14 @@ func ruleCountHelpers(c *Ctx) {
 					}
 				}
 			}
-			if p.End == "return" && !compared {
+			if os.Getenv("GRIBILINT_DEBUG_COUNT") != "" {
+				var fs []string
+				for _, f := range p.Formulas() {
+					fs = append(fs, fstr(f))
+				}
+				fmt.Fprintf(os.Stderr, "COUNT %s end=%s nil=%v zero=%v aNil=%s aZero=%s :: %s\n", fi.Name, p.End, nilErr, zero, aNil, aZero, strings.Join(fs, " ; "))
+			}
+			if (p.End == "return" || p.End == "fall") && !compared {
 				if nilErr && zero {
 					sawEarly = true
 				} else {
@@ -1527,4 +1534,53 @@ func ruleCompareStructural(c *Ctx) {
 	sort.Strings(bad)
 	c.check(len(bad) == 0 && n >= 2, rule, "client.OpResult", "compared field by field", "-", fmt.Sprintf("%d repository types reachable from OpResult, none defines Equal", n),
 		"cmp.Equal uses "+strings.Join(bad, ", ")+" instead of comparing the fields: whatever that method leaves out no longer distinguishes a wanted result from the ones present")
+}
+
+// measuredField: which field of the client error a measured list is — ce.Send directly, through a local, or
+// through a selector function handed to a shared helper (errs := func(ce) []error { return ce.Send }; got := errs(…)).
+func measuredField(info *types.Info, fd *ast.FuncDecl, e ast.Expr, depth int) string {
+	if depth > 4 {
+		return ""
+	}
+	e = ast.Unparen(resolveLocal(info, fd, e))
+	switch x := e.(type) {
+	case *ast.SelectorExpr:
+		return x.Sel.Name
+	case *ast.CallExpr:
+		// a call of a function value bound to a literal with a single `return <selector>`
+		fn := ast.Unparen(x.Fun)
+		for hops := 0; hops < 4; hops++ {
+			id, ok := fn.(*ast.Ident)
+			if !ok {
+				break
+			}
+			v, ok := info.ObjectOf(id).(*types.Var)
+			if !ok {
+				break
+			}
+			def := soleDefinition(info, fd, v)
+			if def == nil {
+				break
+			}
+			fn = ast.Unparen(def)
+		}
+		if fl, ok := fn.(*ast.FuncLit); ok && len(fl.Body.List) == 1 {
+			if rs, ok := fl.Body.List[0].(*ast.ReturnStmt); ok && len(rs.Results) == 1 {
+				if se, ok := ast.Unparen(rs.Results[0]).(*ast.SelectorExpr); ok {
+					return se.Sel.Name
+				}
+			}
+		}
+	}
+	return ""
+}
+
+// comparesWithParam: the condition is `<x> != <param>` (either order), the parameter possibly reached through
+// the parameter binding of a spliced-in helper.
+func comparesWithParam(info *types.Info, fd *ast.FuncDecl, e ast.Expr, param types.Object) bool {
+	be, ok := ast.Unparen(e).(*ast.BinaryExpr)
+	if !ok || be.Op != token.NEQ || param == nil {
+		return false
+	}
+	return aliasRootObj(info, fd, be.X) == param || aliasRootObj(info, fd, be.Y) == param
 }
